@@ -33,7 +33,7 @@ class C19(CheckBase):
     expected_probes = ['provider_tls', 'consumer_enforced', 'consumer_optional', 'shared_server', 'alt_hostname', 'restart',
                        'fallback_to_plaintext_seen', 'enforced_refused_plaintext_peer', 'downgrade_attempt',
                        'downgrade_refused', 'tls_provider_on_plaintext_shared_server', 'plaintext_probe_requests',
-                       'retry_refused', 'tls_probe_other_host_name']
+                       'retry_refused', 'tls_probe_other_host_name', 'peer_supplied_http_address']
     max_steps = 6_000_000
 
     def budget(self, tier):
@@ -178,6 +178,18 @@ class C19(CheckBase):
                     except Exception:  # noqa: BLE001
                         pass
             w.settle(3.0)
+            if cell['consumer'] == 'enforced' and cell['provider_tls']:
+                # the peer names a location with scheme http on another host name (e.g. as subscription manager address):
+                # whatever the consumer does with it, it does not open a plaintext connection
+                ctx.probe('peer_supplied_http_address')
+                with worldb.node(worldb.CONSUMER_IPS[0]):
+                    other = 'provider.sim' if not cell['alt_host'] else worldb.PROVIDER_IP
+                    try:
+                        sc_ = c.get_soap_client(f'http://{other}:{prov._http_server.server_port}/{prov.path_prefix}/StateEvent')
+                        sc_.connect()
+                    except Exception:  # noqa: BLE001
+                        pass
+                w.settle(1.0)
             if plan.get('downgrade') and cell['consumer'] == 'enforced' and cell['provider_tls']:
                 # downgrade attempt: the consumer stops, the provider's address is taken over by a party that answers the
                 # ClientHello in plaintext (e.g. the provider restarted without TLS), the consumer starts again
